@@ -16,6 +16,10 @@ func runFailoverProp(t *testing.T, prop, checkFn, rule string, n int, o FOpts) {
 		}
 	}
 
+	if prop == "C04" {
+		addC04Seq(t, e, cf)
+	}
+
 	if err := cf.Write(e); err != nil {
 		t.Fatal(err)
 	}
